@@ -116,8 +116,11 @@ func c09Run(p c09Params) func() {
 			case 3:
 				deliver(&knxnet.ConnStateRes{Channel: req.Channel + 50, Status: 0})
 			case 4:
+				// just after the next resend tick (exactly at the tick two responses with different
+				// statuses could meet at one instant, and which of them the heartbeat takes is a
+				// scheduling choice the reference machine does not follow)
 				ch := req.Channel
-				After(R, "late-state", func() { deliver(&knxnet.ConnStateRes{Channel: ch, Status: 0}) })
+				After(R+1*ms, "late-state", func() { deliver(&knxnet.ConnStateRes{Channel: ch, Status: 0}) })
 			case 5:
 				ch := req.Channel
 				After(T-j*R-1*ms, "late-state", func() { deliver(&knxnet.ConnStateRes{Channel: ch, Status: 0}) })
